@@ -43,7 +43,8 @@ def readExactS : List IoEv → List Nat → Nat → Except DecErr (List Nat × S
   | .intr :: s, data, n+1 => readExactS s data (n+1)   -- `Err(e) if e.is_interrupted() => {}`
   | .chunk k :: s, data, n+1 =>
     -- the call hands out `min(k, buf.len(), remaining)` bytes
-    let got := data.take (min k (n+1))
+    -- (sizes are ≥ 1: a scheduled size 0 is read as 1, so that `Ok(0)` only ever means end of input)
+    let got := data.take (min (max k 1) (n+1))
     let m := got.length
     if m = 0 then .error .eof                      -- `Ok(0) => break`, buffer not yet full
     else match readExactS s (data.drop m) (n+1-m) with
@@ -89,7 +90,8 @@ def writeAllS : List IoEv → Nat → List Nat → Bool × List Nat × List IoEv
     else (false, (b :: bs).take room, [])
   | .intr :: s, room, b :: bs => writeAllS s room (b :: bs)
   | .chunk k :: s, room, b :: bs =>
-    let m := min k (min (b :: bs).length room)
+    -- (sizes are ≥ 1: a scheduled size 0 is read as 1, so that `m = 0` only ever means "sink full")
+    let m := min (max k 1) (min (b :: bs).length room)
     if m = 0 then (false, [], s)                   -- `Ok(0)` → WriteZero, or the sink's own error
     else
       let r := writeAllS s (room - m) ((b :: bs).drop m)
@@ -116,14 +118,20 @@ def offsetFields : Bitmap → Nat → List (List Nat)
     | .array v => v.length * 2
     | .bitmap _ => 8 * 1024)
 
+/-- serialization.rs:70-73: `write_u16(key)`, `write_u16(len - 1)` per container -/
+def descrFields (b : Bitmap) : List (List Nat) :=
+  b.flatMap fun c => [u16le c.key, u16le ((c.len - 1) % 65536)]
+
+/-- serialization.rs:88-101: one `write_u16` per array value, one `write_u64` per bitset word -/
+def payloadFields (b : Bitmap) : List (List Nat) :=
+  b.flatMap fun c => match c.store with
+    | .array v => v.map u16le
+    | .bitmap bs => bs.bits.map u64le
+
 /-- serialization.rs:66-104: the buffers handed to `write_all`, one per `write_u16/u32/u64` call, in order -/
 def serializeFields (b : Bitmap) : List (List Nat) :=
   [u32le 12346, u32le (b.length % 4294967296)]
-    ++ b.flatMap (fun c => [u16le c.key, u16le ((c.len - 1) % 65536)])
-    ++ offsetFields b (8 + 8 * b.length)
-    ++ b.flatMap (fun c => match c.store with
-        | .array v => v.map u16le
-        | .bitmap bs => bs.bits.map u64le)
+    ++ descrFields b ++ offsetFields b (8 + 8 * b.length) ++ payloadFields b
 
 /-- `serialize_into(&mut writer)` on a limited, scheduled writer: `(Ok?, writer afterwards)` -/
 def serializeInto (b : Bitmap) (w : SWriter) : Bool × SWriter := w.writeFields (serializeFields b)
